@@ -11,7 +11,7 @@ from extract import ExtractionError
 
 FLATTEN = "prqlc/prqlc/src/semantic/resolver/flatten.rs"
 
-LABELS = ["FS1", "FS2", "FS3", "FG1", "FG2", "FG3", "FG4", "FT1", "FT2"]
+LABELS = ["FS1", "FS2", "FS3", "FG1", "FG2", "FG3", "FG4", "FT1", "FT2", "FT3"]
 FUNCTIONS = ["flatten_sort_arm", "flatten_group_arm", "flatten_call_slice"]
 RLIMIT = 80
 
@@ -147,11 +147,66 @@ def build(X):
     ts.rewrite_re("R5", r"\bself\.partition\.clone\(\)", "clone_partition(&self.partition)", count=None, why="Option<Box<Expr>>::clone")
     ts.rewrite_re("R5", r"\bself\.window\.clone\(\)", "clone_frame(&self.window)", count=None, why="WindowFrame::clone")
     ts.rewrite_re("R5", r"\bBox::new\(", "box_new(", count=None, why="Box::new")
-    ts.text = ("impl Flattener {\npub fn flatten_call_slice(&self, input: Expr, kind: TransformKind) -> (r: ExprKind)\n"
+    ts.text = ("impl Flattener {\npub fn flatten_call_slice(&mut self, input: Expr, kind: TransformKind) -> (r: ExprKind)\n"
                "    ensures\n"
                "        // C03: every transform inherits the sort in effect - except that the call of a join / append carries none of its own\n"
-               "        r is TransformCall && r->TransformCall_0.sort@ == (if kind is Join || kind is Append { Seq::<ColumnSort>::empty() } else { self.sort@ }), // @FT1\n"
-               "        r->TransformCall_0.partition == self.partition && r->TransformCall_0.frame == self.window && *r->TransformCall_0.input == input && *r->TransformCall_0.kind == kind, // @FT2\n"
+               "        r is TransformCall && r->TransformCall_0.sort@ == (if kind is Join || kind is Append { Seq::<ColumnSort>::empty() } else { old(self).sort@ }), // @FT1\n"
+               "        r->TransformCall_0.partition == old(self).partition && r->TransformCall_0.frame == old(self).window && *r->TransformCall_0.input == input && *r->TransformCall_0.kind == kind, // @FT2\n"
+               "        // C03 / C01: building the call leaves the sort in effect (and partition / frame) as it is: the transforms that FOLLOW a join still inherit the order of its left input\n"
+               "        final(self).sort@ == old(self).sort@ && final(self).partition == old(self).partition && final(self).window == old(self).window, // @FT3\n"
                "{\n    " + ts.text + "\n}\n}\n")
     ts.rewrites.append({"rule": "slice", "what": "`let sort = ..;` and the ExprKind::TransformCall(..) expression that follows it, wrapped as a method"})
     return PRELUDE + tk.text + "\n" + SHIM2 + sa.text + "\n" + ga.text + "\n" + ts.text + "\n} // verus!\nfn main() {}\n"
+
+
+# ----------------------------------------------------------------------------- replay on the real compiler
+SETUP = ("create table a(id integer, x integer, g text); insert into a values (1,10,'p'),(2,20,'p'),(3,30,'q'),(4,40,'q'),(5,50,'r'),(6,5,'r');"
+         "create table b(id integer, v integer); insert into b values (1,100),(2,200),(3,300),(4,400),(5,500),(6,600);")
+_A = [(1, 10, 'p'), (2, 20, 'p'), (3, 30, 'q'), (4, 40, 'q'), (5, 50, 'r'), (6, 5, 'r')]
+_BYX = sorted(_A, key=lambda r: -r[1])
+
+# (program, expected rows): the order given by `sort` in front of a join is the order a following take / window sees
+CASES = [
+    ("from a\nsort {-x}\njoin b (==id)\ntake 2\nselect {a.id}\n", [(r[0],) for r in _BYX[:2]], True),
+    ("from a\nsort {-x}\njoin b (==id)\nderive {r = row_number this}\nselect {a.id, r}\nsort a.id\n", sorted((r[0], i + 1) for i, r in enumerate(_BYX)), True),
+    ("from a\nselect {id, x, g}\nsort {-x}\njoin b (==id)\ntake 2\ngroup a.g (aggregate {n = count this, t = sum a.x})\nsort g\n", [('q', 1, 40), ('r', 1, 50)], True),
+    ("from a\nsort {-x}\ntake 3\nselect {id}\n", [(r[0],) for r in _BYX[:3]], True),
+    ("from a\nsort x\nderive {r = row_number this}\nfilter r <= 2\nselect {id}\nsort id\n", [(1,), (6,)], True),
+]
+
+
+def _try(src, exp, ordered):
+    import replaylib
+    ok, sql = replaylib.compile_prql(src, "sql.sqlite")
+    if not ok:
+        return {"input": src, "expected": exp, "observed": sql[:400], "failing": sql.startswith("PANIC"), "replay_kind": "rows"}
+    ok2, rows = replaylib.sqlite_rows(SETUP, sql)
+    if not ok2:
+        return {"input": src, "expected": exp, "observed": "sqlite error: %s" % rows, "failing": True, "replay_kind": "rows", "sql": sql}
+    rows = [tuple(r) for r in rows]
+    return {"input": src, "expected": [list(r) for r in exp], "observed": [list(r) for r in rows], "failing": rows != exp, "replay_kind": "rows", "sql": sql}
+
+
+def replay(failure):
+    for src, exp, ordered in CASES:
+        r = _try(src, exp, ordered)
+        if r["failing"]:
+            return r
+    return {"failing": False}
+
+
+def rerun(doc):
+    return _try(doc["input"], [tuple(r) for r in doc["expected"]], True)
+
+
+SWEEP_DOC = ("programs where a sort is followed by a join and then by a take, a window function or a grouped aggregate of the taken rows (and two programs without a join): "
+             "compiled by the real prqlc, run on SQLite, rows compared with the rows computed from the tables in Python")
+
+
+def sweep():
+    out = []
+    for src, exp, ordered in CASES:
+        r = _try(src, exp, ordered)
+        r["obligation"] = "flatten_sort.FT3"
+        out.append(r)
+    return out
